@@ -147,7 +147,10 @@ class WriteDataToPackfile(CUnit):
         rv = read_view(a.read_handle)
         yield 'source_fully_consumed', rv.pos == rv.content.length()
 
-    # callee mode: the appended bytes are *defined* as the specified encoding of the source's rest
+    # callee mode: the appended bytes are *defined* as the specified encoding of the source's rest (nothing left to assume)
+    def post_callee(self, vc, a, o, ret):
+        return ()
+
     def havoc(self, vc, I, a):
         o, ph, rh = a.o, a.pack_handle, a.read_handle
         if a.compress is True:
